@@ -32,7 +32,8 @@ MANIFEST = {
     "level_note": "sampled pairs; executor replaced by the ray stand-in",
 }
 VARIANTS = ["truth_only", "ukf_params", "policy", "sensor_set", "sensor_noise", "seed", "output_cadence", "split_calls", "schedule_reverse",
-            "schedule_random", "exec_order_reverse", "exec_order_random", "extra_target_static", "extra_target_static", "fewer_targets_static", "target_added_by_event", "target_removed_by_event", "id_reused_after_removal", "same_timed_burn_on_other_agent", "other_agent_maneuvers_id_zero", "two_engines", "filter_model", "maneuver_detection"]
+            "schedule_random", "exec_order_reverse", "exec_order_random", "extra_target_static", "extra_target_static", "fewer_targets_static", "target_added_by_event", "target_removed_by_event", "id_reused_after_removal", "same_timed_burn_on_other_agent", "other_agent_maneuvers_id_zero", "two_engines", "filter_model", "maneuver_detection",
+            "after_another_scenario", "after_another_scenario"]
 
 
 def trajectory(cfg, nsteps, **kw):
@@ -45,12 +46,36 @@ def trajectory(cfg, nsteps, **kw):
         return {}, f"IsolatedRunError: {e}"
 
 
-def _trajectory(cfg, nsteps, *, split=None, scheduler=None, base_seed=0, exec_order=None):
+def _prelude(pre):
+    """Another scenario run to its end in this interpreter first (the way a script or a Monte-Carlo driver runs several scenarios in
+    one process): it carries the same agent ids on other orbits, other dynamics settings, another start date and step."""
+    from .. import scenario_kit as sk
+    from resonaate.physics.time.stardate import datetimeToJulianDate
+
+    cfg, n = pre["cfg"], pre["nsteps"]
+    b = sk.build(cfg)
+    try:
+        start = datetime.fromisoformat(cfg["time"]["start_timestamp"])
+        b.app.propagateTo(datetimeToJulianDate(start + timedelta(seconds=n * cfg["time"]["physics_step_sec"])))
+    finally:
+        sk.teardown(b)
+
+
+def _trajectory(cfg, nsteps, *, split=None, scheduler=None, base_seed=0, exec_order=None, prelude=None):
     """Run and capture {(agent_id, step): state bytes} for targets and sensors."""
     from .. import scenario_kit as sk
     from .. import shimray
 
     sk.init()
+    if prelude:
+        try:
+            _prelude(prelude)
+        except Exception as e:  # noqa: BLE001
+            import traceback
+
+            if "LinAlgError" in type(e).__name__ or "invalid numeric entries" in str(e):
+                return {}, f"LinAlgError in the preceding scenario: {e}"
+            return {}, f"preceding scenario raised {type(e).__name__}: {e} :: {traceback.format_exc()[-400:]}"
     b = sk.build(cfg, scheduler=scheduler, base_seed=base_seed, exec_order=exec_order)
     traj = {}
     err = None
@@ -201,6 +226,33 @@ def make_pair(net, variant, rng):
             victim = b["engines"][0]["targets"][-1]["id"]
             b["events"].append({"scope": "scenario_step", "scope_instance_id": 0, "start_time": sk.iso(start + timedelta(seconds=net["step"] * rng.randrange(1, n + 1))),
                                 "event_type": "agent_removal", "tasking_engine_id": 1, "agent_id": victim, "agent_type": "target"})
+    elif variant == "after_another_scenario":
+        # run B is the same scenario, but the interpreter has already run another one to its end: same agent ids on other orbits,
+        # the other truth model (other geopotential / perturbation switches), station keeping on, another start date and step
+        import random as _r2
+
+        r2 = _r2.Random(rng.randrange(1 << 30))
+        net2 = netkit.gen_network(r2, policies=("MunkresDecision", "MyopicNaiveGreedyDecision"), max_sensors=2, max_targets=max(1, len(net["targets"])))
+        net2["init_pos_std"], net2["save_filter_steps"], net2["nsteps"] = 1e-3, False, r2.randrange(1, 4)
+        while len(net2["targets"]) < len(net["targets"]):
+            net2["targets"].append(dict(net2["targets"][-1], id=net2["targets"][-1]["id"] + 1, heading=r2.uniform(0, 360)))
+        for t2, t1 in zip(net2["targets"], net["targets"]):
+            t2["id"] = t1["id"]
+        if r2.random() < 0.5:
+            # the other scenario may also start at the same instant (anything remembered per epoch would then be found again)
+            net2["start"], net2["step"] = net["start"], net["step"]
+        over2 = dict(model="special_perturbations" if (model == "two_body" or r2.random() < 0.5) else "two_body", filter_model="two_body", truth_only=r2.random() < 0.5)
+        if over2["model"] == "special_perturbations":
+            over2["geopotential"] = {"model": r2.choice(["egm96.txt", "GGM03S.txt"]), "degree": r2.choice([2, 6]), "order": r2.choice([0, 2])}
+            over2["perturbations"] = {"third_bodies": r2.choice([["sun"], ["moon"], ["sun", "moon", "jupiter"], []]), "solar_radiation_pressure": r2.random() < 0.5,
+                                      "general_relativity": r2.random() < 0.5}
+        over2["station_keeping"] = True
+        pre = netkit.net_cfg(net2, **over2)
+        for t in pre["engines"][0]["targets"]:
+            t["platform"]["station_keeping"] = {"routines": ["LEO"]}
+            t["platform"]["mass"] = r2.choice([20.0, 800.0])
+            t["platform"]["visual_cross_section"] = r2.choice([1.0, 40.0])
+        kb["prelude"] = {"cfg": pre, "nsteps": net2["nsteps"]}
     elif variant == "filter_model":
         b["estimation"]["sequential_filter"]["dynamics_model"] = "special_perturbations" if model == "two_body" else "two_body"
     elif variant == "maneuver_detection":
@@ -318,6 +370,8 @@ def eval_pair(ctx, net, variant, rng_seed):
     tb, eb = trajectory(b, net["nsteps"], **kb)
     if ea or eb:
         if "LinAlgError" in (ea or eb) or "invalid numeric entries" in (ea or eb):
+            if "preceding scenario" in (ea or eb):
+                ctx.count("pairs_skipped_preceding_scenario_diverged")
             # a diverged filter (hostile estimate settings) aborts the run: no pair to compare; not this property's subject
             ctx.count("pairs_skipped_filter_divergence")
             return False
@@ -335,7 +389,7 @@ def eval_pair(ctx, net, variant, rng_seed):
     # stored rows: same output cadence in both runs (every variant but 'output_cadence') => the same set of stored epochs for every
     # agent that lives through the same steps in both runs
     same_agents = ("two_engines", "truth_only", "ukf_params", "policy", "sensor_noise", "seed", "split_calls", "schedule_reverse", "schedule_random", "exec_order_reverse",
-                   "exec_order_random", "filter_model", "maneuver_detection")
+                   "exec_order_random", "filter_model", "maneuver_detection", "after_another_scenario")
     if variant in same_agents and not bad:
         steps_of = lambda t, a_: {k[1] for k in t if k[0] == a_ and len(k) == 2}  # noqa: E731
         rows_of = lambda t, a_: {k[2] for k in t if k[0] == a_ and len(k) == 3}  # noqa: E731
@@ -391,7 +445,7 @@ def real_ray_pair(ctx, net):
 
 def run(ctx):
     rng = ctx.pyrng("c10")
-    n = ctx.scale(64, 8000)
+    n = ctx.scale(160, 8000)
     for i in range(n):
         if ctx.time_left() < 15:
             break
@@ -407,6 +461,8 @@ def run(ctx):
             net2["nsteps"] = 3
             real_ray_pair(ctx, net2)
         variant = VARIANTS[(i * ctx.nshards + ctx.shard) % len(VARIANTS)] if ctx.quick else rng.choice(VARIANTS)
+        if os.environ.get("VERIF_C10_VARIANT"):  # development aid: drive one variant only
+            variant = os.environ["VERIF_C10_VARIANT"]
         if variant in ("extra_target_static", "fewer_targets_static", "target_added_by_event", "target_removed_by_event", "exec_order_reverse", "exec_order_random") and rng.random() < 0.6:
             # agent-set and execution-order variants matter most where agents share more than the point-mass model
             net["truth_model"] = "special_perturbations"
